@@ -57,6 +57,10 @@ REQS = [
     (b"http://example.org/\r\n", "other-scheme"),
     (b"gemini://example.org/" + b"a" * 1003 + b"\r\n", "len-1026"),
     (b"gemini://example.org/" + b"a" * 1001 + b"\r\n", "len-1024"),
+    # over the limit in bytes but under it in characters, and exactly at the limit in bytes
+    ("titan://h/".encode() + "\u00e9".encode() * 520 + b";size=4;mime=text/plain\r\nDATA", "titan-multibyte-1079-bytes"),
+    ("gemini://h/".encode() + "\u4e2d".encode() * 340 + b"\r\n", "gemini-multibyte-1033-bytes"),
+    ("titan://h/".encode() + "\u00e9".encode() * 493 + b"aaa;size=4;mime=text/plain\r\nDATA", "titan-multibyte-1024-bytes"),
     (b"x" * 1500 + b"\r\n", "oversize-with-crlf"),
     (b"x" * 1500, "oversize-no-crlf"),
     (b"\r\n", "empty-line"),
